@@ -53,8 +53,21 @@ package interp
 // the already typed right-hand side (types = append(types, src.typ, bool); scope.add(nil) is log.Panic).
 // In cfg it is called in post-order, after the operand was typed; global type analysis calls it for the
 // top-level statements of a piece before anything is typed.
-//@ trusted func compDefineX(sc, n) (err)
-//@   requires [C11] right-hand-side-typed: n.child[len(n.child)-1].kind == callExpr || (n.child[len(n.child)-1].kind == typeAssertExpr && n.child[len(n.child)-1].child[1].typ != nil) || (n.child[len(n.child)-1].kind != typeAssertExpr && n.child[len(n.child)-1].typ != nil)
+//@ func compDefineX(sc, n) (err)
+//@   props C11
+//@   opt safety = off
+//@   opt loops = havoc
+//@   opt opaque-calls = *
+//@   opt opaque-havoc = none
+//@   requires [C11!] right-hand-side-typed: n.child[len(n.child)-1].kind == callExpr || (n.child[len(n.child)-1].kind == typeAssertExpr && n.child[len(n.child)-1].child[1].typ != nil) || (n.child[len(n.child)-1].kind != typeAssertExpr && n.child[len(n.child)-1].typ != nil)
+//@   requires [assume] n != nil && sc != nil && sc.sym != nil
+//@   requires [assume] destinations-are-in-the-current-frame: forallR(k, n.child[k].level == 0)
+//@   -- a variable created here must be found again, by a later `a, c := g()` of another piece, at the level
+//@   -- its defining node carries (scope.lookup answers globalFrame for symbols flagged global, else the
+//@   -- scope distance): otherwise the redeclaration allocates a second variable and pointers, closures and
+//@   -- functions that captured the first one no longer see the assignments
+//@   loop 4
+//@   step created-variable-resolves-at-the-level-of-its-node: !n.child[i].redeclared ==> sc.sym[n.child[i].ident] != nil && ite(sc.sym[n.child[i].ident].global, globalFrame, 0) == n.child[i].level
 //@ lit Interpreter.gta case:defineXStmt () ()
 //@   props C11
 //@   opt safety = off
